@@ -47,16 +47,19 @@ func (g *GRPC) GetVersion() (*result.Version, error) {
 	return g.r.GetVersion() // static data, no shared state
 }
 func (g *GRPC) GetApplicationLog(h util.Uint256, trig *trigger.Type) (*result.ApplicationLog, error) {
-	return gated(g.r, "GetApplicationLog", false, func() (*result.ApplicationLog, error) { return g.r.GetApplicationLog(h, trig) })
+	return gated(g.r, "GetApplicationLog:"+g.r.c.keyOfHash(h), false, func() (*result.ApplicationLog, error) { return g.r.GetApplicationLog(h, trig) })
 }
 func (g *GRPC) SendRawTransaction(tx *transaction.Transaction) (util.Uint256, error) {
-	return gated(g.r, "SendRawTransaction", true, func() (util.Uint256, error) { return g.r.SendRawTransaction(tx) })
+	g.r.c.noteTx(tx, contentKey(tx))
+	return gated(g.r, "SendRawTransaction:"+contentKey(tx), true, func() (util.Uint256, error) { return g.r.SendRawTransaction(tx) })
 }
 func (g *GRPC) SubmitP2PNotaryRequest(req *payload.P2PNotaryRequest) (util.Uint256, error) {
-	return gated(g.r, "SubmitP2PNotaryRequest", true, func() (util.Uint256, error) { return g.r.SubmitP2PNotaryRequest(req) })
+	g.r.c.noteTx(req.MainTransaction, contentKey(req.MainTransaction)+"/main")
+	g.r.c.noteTx(req.FallbackTransaction, contentKey(req.MainTransaction)+"/fallback")
+	return gated(g.r, "SubmitP2PNotaryRequest:"+contentKey(req.MainTransaction), true, func() (util.Uint256, error) { return g.r.SubmitP2PNotaryRequest(req) })
 }
 func (g *GRPC) CalculateNetworkFee(tx *transaction.Transaction) (int64, error) {
-	return gated(g.r, "CalculateNetworkFee", false, func() (int64, error) { return g.r.CalculateNetworkFee(tx) })
+	return gated(g.r, "CalculateNetworkFee:"+contentKey(tx), false, func() (int64, error) { return g.r.CalculateNetworkFee(tx) })
 }
 func (g *GRPC) InvokeScript(script []byte, signers []transaction.Signer) (*result.Invoke, error) {
 	return gated(g.r, "InvokeScript", false, func() (*result.Invoke, error) { return g.r.InvokeScript(script, signers) })
